@@ -261,6 +261,12 @@ def stepCore (sys : Sys K V Q) : Op K V Q → Res (Sys K V Q) (RV K V)
     | op =>
       match runOnSet sys reg (stepSetOp E.toUnit R.toUnit sys.sets op) with
       | .ok a s => .ok a.castU s | .panic c s => .panic c s | .ub => .ub
+  | .umap reg op =>
+    match op with
+    | .clone_to _ => .ok .unit sys | .from_iter _ _ => .ok .unit sys | .serde _ => .ok .unit sys
+    | op =>
+      match runOnSet sys reg (stepMapOp E.toUnit R.toUnit sys.sets op) with
+      | .ok a s => .ok a.castU s | .panic c s => .panic c s | .ub => .ub
   | .inject _ => .ok .unit sys
   | .endCase => .ok .unit sys
 
@@ -278,6 +284,8 @@ def touched : Op K V Q → List Nat × List Nat
   | .set reg (.is_disjoint o) => ([], [reg, o])
   | .set reg (.sub o dst) => ([], [reg, o, dst])
   | .set reg _ => ([], [reg])
+  | .umap reg (.eq o) => ([], [reg, o])
+  | .umap reg _ => ([], [reg])
   | _ => ([], [])
 
 /-- ghost-live slots at or beyond `len` (unreachable: leaked in place). -/
